@@ -160,8 +160,9 @@ def classify_verus(res, canary=None):
                 kind = m
                 break
         if kind and not any(x in b for x in ('rlimit', 'Resource limit')):
-            locs = re.findall(r'-->\s*[^:\s]+:(\d+):(\d+)', b)
-            fails.append({'kind': kind, 'line': int(locs[0][0]) if locs else None, 'text': b})
+            locs = re.findall(r'-->\s*([^:\s]+):(\d+):(\d+)', b)
+            # the primary location may lie in vstd (e.g. the spec of PartialOrd::partial_cmp): keep the file name
+            fails.append({'kind': kind, 'line': int(locs[0][1]) if locs else None, 'file': locs[0][0] if locs else None, 'text': b})
         else:
             incon.append(b)
     if incon:
